@@ -40,3 +40,12 @@ pub fn split_by_alignment(data: &mut [u8]) -> usize {
     let (head, body, _tail) = unsafe { data.align_to_mut::<u64>() };
     head.len() + body.len()
 }
+
+/// a length counter that silently wraps at 2^32
+pub struct Counting {
+    pub datalen: usize,
+}
+pub fn count_bytes(c: &mut Counting, data: &[u8]) -> u32 {
+    c.datalen += data.len() as u32 as usize;
+    c.datalen as u32
+}
